@@ -14,6 +14,12 @@ PROPERTY = "C05"
 FILES = ["betterproto/__init__.py", "betterproto/casing.py"]
 
 
+def sym_setup(betterproto):
+    from .c15 import sym_setup as time_setup
+
+    return time_setup(betterproto)
+
+
 def json_name_sym(s):
     """protoc's ToJsonName over a (possibly symbolic) identifier"""
     if not getattr(s, "_vf_sym", False):
@@ -202,6 +208,11 @@ def units(tier):
     # Timestamp (RFC 3339) / Duration (decimal seconds) strings are produced and parsed by C code: cross-acceptance with the
     # reference is evaluated at solver-chosen and boundary witnesses, in repeated / optional / oneof / map-value position
     u.append(("time-fields[Timestamp, Duration | reference JSON both ways]", h_positions, {}))
+    from .c15 import h_duration_json, h_timestamp_json
+
+    # the emitted strings themselves, decided for every instant / span (formatting logic executed symbolically)
+    u.append(("timestamp-json[all instants, any offset]", h_timestamp_json, {}))
+    u.append(("duration-json[all spans]", h_duration_json, {}))
     return u
 
 
